@@ -100,6 +100,23 @@ def muxnames_cases(tier):
     return out
 
 
+def odd_option_cases(tier):
+    """Option values at the edge of what the writer understands.  The statement speaks of generations that SUCCEED: each
+    of these may be refused, but if a file comes out it has to describe the layout (positions, byte order, multiplexing)."""
+    out = []
+    # mux_count with no mux_signal on a plain field (fcp v1 wrote mux_count: 1 everywhere), alone and next to a real mux group
+    out.append(("oddopts", {"fields": (U(8), U(8), U(8)), "sigs": (("f2", (("mux_count", 4),)),), "may_refuse": True}))
+    out.append(("oddopts", {"fields": (U(8), U(8), U(8)), "sigs": (("f1", (("mux_signal", "f0"), ("mux_count", 2))), ("f2", (("mux_count", 1),))), "mux": {"signal": 0, "count": 2, "on": (1,)}, "may_refuse": True}))
+    # endianess spellings other than "little"/"big" on a trailing flag bit and on a whole byte
+    for val in ("Big", "LITTLE", "little_endian", "motorola", "intel"):
+        out.append(("oddopts", {"fields": (U(8), U(1)), "sigs": (("f1", (("endianess", val),)),), "may_refuse": True}))
+        out.append(("oddopts", {"fields": (U(8), U(8), U(1)), "sigs": (("f1", (("endianess", val),)), ("f2", (("endianess", val),))), "may_refuse": True}))
+    # frame ids at and beyond the edges of the 11-bit identifier
+    for fid in (-1, -2048, 2048, 0x1FFFFFFF, 0x20000000):
+        out.append(("oddopts", {"fields": (U(8), I(12)), "sigs": (), "id": fid, "may_refuse": True}))
+    return out
+
+
 def unit_cases(tier):
     out = []
     inner = ("st", (("p", 0, U(8), "degC", None), ("q", 1, I(8), None, None)))
@@ -181,6 +198,13 @@ def build_case(kind, spec, idx, h):
             decls.append(("impl", "can", sname, None if k == 0 else name, (("id", (2 * idx + k) % 2048),), tuple(sigs)))
             bindings.append({"struct": sname, "name": name, "id": (2 * idx + k) % 2048, "bus": "default", "big": {"f%d" % i for i in big}, "mux": mux})
         return decls, bindings
+    if kind == "oddopts":
+        sname = "S%d" % idx
+        decls.append(("struct", sname, tuple(("f%d" % i, i, t, None, None) for i, t in enumerate(spec["fields"]))))
+        fid = spec.get("id", idx % 2048)
+        decls.append(("impl", "can", sname, None, (("id", fid),), tuple(spec["sigs"])))
+        bindings.append({"struct": sname, "name": sname, "id": fid, "bus": "default", "big": set(), "mux": spec.get("mux")})
+        return decls, bindings
     sname = "S%d" % idx
     fields = []
     for i, t in enumerate(spec["fields"]):
@@ -253,6 +277,8 @@ def value_rows(leaves, env, limit=48):
 def feature_class(kind, spec):
     if kind in ("buses", "twobind"):
         return kind
+    if kind == "oddopts":
+        return "oddopts:" + ("id" if "id" in spec else ",".join(sorted({k for _n, kv in spec["sigs"] for k, _v in kv})))
     if kind == "muxnames":
         return "muxnames:%s%s" % ("nested2" if spec["nested"] == 2 else "nested" if spec["nested"] else "flat", ",long" if len(spec["sel"]) > 32 or len(spec["muxed"]) > 32 else "")
     f = []
@@ -284,6 +310,9 @@ def make_worker(tier):
             try:
                 results = fcp_dbc.Generator().generate(fcp, {"output": "/nonexistent-out"})
             except Exception as e:  # noqa
+                if spec.get("may_refuse"):
+                    S.add("outcomes", "refused:" + kind)
+                    continue
                 S.add("outcomes", "gen-exc")
                 S.violation("C05.generate", "C05.generate/exception:%s/%s" % (type(e).__name__, fc), inp, expected="DBC files", actual="%s: %s" % (type(e).__name__, str(e)[:200]))
                 continue
@@ -441,7 +470,7 @@ def unit_map(decls, sname):
 def run(tier):
     common.bind_repo()
     r = Run("C05", tier)
-    cases = layout_cases(tier) + endian_cases(tier) + mux_cases(tier) + unit_cases(tier) + bus_cases(tier) + twobind_cases(tier) + muxnames_cases(tier)
+    cases = layout_cases(tier) + endian_cases(tier) + mux_cases(tier) + unit_cases(tier) + bus_cases(tier) + twobind_cases(tier) + muxnames_cases(tier) + odd_option_cases(tier)
     counts = {}
     for k, _ in cases:
         counts[k] = counts.get(k, 0) + 1
